@@ -353,7 +353,7 @@ Proof. vm_compute; repeat split; reflexivity. Qed.
    with the hand-written position algebra used by every theorem above, on every input.
    Proofs in Proofs/PyramidSrcP.v. *)
 From Coq Require Import ZArith.
-From Toasty Require Import Model.Study Generated.PyramidSrc Proofs.PyramidSrcP.
+From Toasty Require Import Model.SrcPrelude Model.Study Generated.PyramidSrc Proofs.PyramidSrcP.
 
 Theorem src_pos_parent_is_model :
   forall p, src_pos_parent (to_spos p) =
@@ -392,3 +392,25 @@ Example src_functions_run :
   src_is_subtile 5 (mkSP 1 1 0) (mkSP 3 5 2) = None /\
   src_next_highest_power_of_2 10 700 = Some 1024%Z /\ src_depth2tiles 2 = Some 21%Z.
 Proof. vm_compute. repeat split; reflexivity. Qed.
+
+(* the generators _postfix_pos / generate_pos, translated as functions returning the list of the
+   items they yield, in order: the translated enumeration IS [generate_pos] of the model, which
+   the C13 theorems above speak about ([fuel] only has to exceed the recursion depth). *)
+
+Theorem src_postfix_pos_is_model :
+  forall (k fuel : nat) (p : pos) (d : nat),
+  k = (S d - pn p)%nat -> (k < fuel)%nat ->
+  src__postfix_pos fuel (to_spos p) (Z.of_nat d) = Some (map to_spos (postfix k p)).
+Proof. exact PyramidSrcP.src_postfix_pos_eq. Qed.
+Print Assumptions src_postfix_pos_is_model.
+
+Theorem src_generate_pos_is_model :
+  forall d fuel : nat, (S d < fuel)%nat ->
+  src_generate_pos fuel (Z.of_nat d) = Some (map to_spos (generate_pos d)).
+Proof. exact PyramidSrcP.src_generate_pos_eq. Qed.
+Print Assumptions src_generate_pos_is_model.
+
+Example src_generate_pos_runs :
+  src_generate_pos 5 1 = Some [mkSP 1 0 0; mkSP 1 1 0; mkSP 1 0 1; mkSP 1 1 1; mkSP 0 0 0] /\
+  option_map (@length _) (src_generate_pos 9 3) = Some 85%nat.
+Proof. vm_compute. split; reflexivity. Qed.
